@@ -427,11 +427,31 @@ pub fn run(cfg: &Config) -> i32 {
 	let started = Instant::now();
 	let thorough = cfg.tier == Tier::Thorough;
 	let mut total = Report::new();
-	let (n_batches, per) = if thorough { (16usize, 500usize) } else { (8usize, 150usize) };
+	let (n_batches, per) = if thorough { (16usize, 500usize) } else { (8usize, 120usize) };
 	let mut batches = Vec::new();
 	for b in 0..n_batches {
 		let mut rng = Rng::new(cfg.seed).fork(0xc19 + b as u64);
 		let mut cases: Vec<Case> = (0..per).map(|_| gen_case(&mut rng)).collect();
+		{
+			// arrays and objects of exactly k scalar literals with and without a trailing comma, alone and after
+			// an interrupting element (block-wise munchers, recursion limits); spread over the batches
+			let ks: Vec<usize> = if thorough { (1..=40).collect() } else { vec![1, 2, 3, 4, 5, 6, 7, 8, 9, 10, 11, 12, 15, 16, 17, 23, 24, 25, 31, 32, 33, 40] };
+			for (ki, &k) in ks.iter().enumerate() {
+				if ki % n_batches != b {
+					continue;
+				}
+				for trailing in [false, true] {
+					let items: Vec<String> = (0..k).map(|j| match j % 4 { 0 => format!("{}", j), 1 => format!("\"s{}\"", j), 2 => "true".to_string(), _ => format!("-{}", j) }).collect();
+					let t = if trailing { "," } else { "" };
+					cases.push(Case { rust: format!("json!([{}{}])", items.join(", "), t), json: format!("[{}]", items.join(",")), exact: true });
+					cases.push(Case { rust: format!("json!([null, [], {}{}])", items.join(", "), t), json: format!("[null,[],{}]", items.join(",")), exact: true });
+					let entries: Vec<String> = (0..k).map(|j| format!("\"k{}\": {}", j % 30, items[j])).collect();
+					let jentries: Vec<String> = (0..k).map(|j| format!("\"k{}\":{}", j % 30, items[j])).collect();
+					cases.push(Case { rust: format!("json!({{{}{}}})", entries.join(", "), t), json: format!("{{{}}}", jentries.join(",")), exact: true });
+					cases.push(Case { rust: format!("json!({{\"head\": null, (\"p\"): {{}}, {}{}}})", entries.join(", "), t), json: format!("{{\"head\":null,\"p\":{{}},{}}}", jentries.join(",")), exact: true });
+				}
+			}
+		}
 		if b == 0 {
 			// fixed corner cases in every run
 			for (r, j) in [
@@ -459,14 +479,14 @@ pub fn run(cfg: &Config) -> i32 {
 		cfg,
 		EvidenceMeta {
 			id: "C19",
-			rule: "a case is one json! invocation over a generated document (nesting up to 4, optional trailing commas at every level incl. after nested containers, string literals of every character class, null/true/false, unsuffixed i32 integers incl. negative ones, suffixed integers of every width at their bounds, spelling-stable floats compared exactly and exponent / trailing-zero / f32 floats compared as the same double, duplicate keys, parenthesized / String::from / concat! / const keys, the three macro delimiters) emitted as Rust source together with the matching JSON text; the programs are compiled against the current tree and executed, each comparing the constructed value with Value::parse_str of the text (and key lookups on the constructed object); a compile error attributed to an invocation is a violation; distinct invocations counted by hash",
+			rule: "a case is one json! invocation over a generated document (nesting up to 4, optional trailing commas at every level incl. after nested containers, string literals of every character class, null/true/false, unsuffixed i32 integers incl. negative ones, suffixed integers of every width at their bounds, spelling-stable floats compared exactly and exponent / trailing-zero / f32 floats compared as the same double, duplicate keys, parenthesized / String::from / concat! / const keys, the three macro delimiters; plus arrays and objects of exactly k scalar literals for every k in 1..40 with and without a trailing comma) emitted as Rust source together with the matching JSON text; the programs are compiled against the current tree and executed, each comparing the constructed value with Value::parse_str of the text (and key lookups on the constructed object); a compile error attributed to an invocation is a violation; distinct invocations counted by hash",
 			exhaustive: false,
 			assumptions: vec!["rustc's macro expander is part of the trusted base; a float literal reaches the macro as an f64, so only shortest-round-trip spellings without exponent are required to be preserved exactly".into()],
 			extra: json!({"batches": n_batches, "invocations_per_batch": per}),
 		},
 		total,
 		started,
-		if thorough { 4000 } else { 300 },
+		if thorough { 4000 } else { 600 },
 	)
 	.exit
 }
